@@ -27,6 +27,7 @@ type SimChain struct {
 	subs         []headerSub
 	byScriptHash map[string][]string // electrum script hash -> txids paying to it
 	held         map[string]bool     // txids the miner leaves in the mempool
+	blockSubs    []func()
 }
 
 type Block struct {
@@ -65,6 +66,7 @@ type SwapOutput struct {
 	AssetOK         bool // liquid: output really carries the policy asset
 	SpentBy         string
 	SpendPath       string
+	ScriptMismatch  bool // tier 2: the adapter asked the wallet to pay an address that is not P2WSH of the swap script
 }
 
 func newSimChain(w *World, name string, base uint32) *SimChain {
@@ -203,7 +205,14 @@ func (c *SimChain) Mine(n int) {
 	c.snapshot()
 	c.w.Observe(&Obs{Node: -1, Kind: "block", Str: c.Name, Num: int64(c.Height())})
 	c.notifyHeaders()
+	for _, fn := range c.blockSubs {
+		fn()
+	}
 }
+
+// onBlock registers a listener called after every change of the best chain
+// (the simulated lnd's chain notifier).
+func (c *SimChain) onBlock(fn func()) { c.blockSubs = append(c.blockSubs, fn) }
 
 // Reorg replaces the top `depth` blocks by depth+1 new ones; transactions of
 // the replaced blocks return to the mempool and confirm again in the first
